@@ -777,3 +777,44 @@ SPECS.update({
                 assumptions=["later entries of the same (symbol, date) replace earlier ones (pinned by the suite)"],
                 outside=["gaps beyond -3..+10 days", "more than two competing entries"]),
 })
+
+
+# ---------------------------------------------------------------------------------------------- C16 (hook build)
+def fam_c16(tier, seed):
+    sks = []
+    i = 0
+    b = BASES[2]  # 2024-03-07: offsets 0/1 in 2023/24, 30/31 in 2024/25, 400 in 2025/26
+    # two securities, two tax years, all numeric fields symbolic
+    sym_shapes = [
+        [["B", "A", 0], ["B", "B", 0], ["S", "A", 1], ["S", "B", 1]],
+        [["B", "A", 0], ["B", "B", 0], ["S", "B", 1], ["S", "A", 30]],
+        [["B", "A", 0], ["S", "A", 1], ["S", "A", 30]],
+        [["B", "B", 0], ["B", "A", 0], ["S", "A", 30], ["S", "B", 30]],
+        [["B", "A", 0], ["B", "B", 0], ["D", "A", 1], ["D", "B", 30], ["S", "A", 30]],
+    ]
+    for sh in sym_shapes:
+        # prices and fees symbolic (so every gain sign is explored), quantities concrete (no matcher forks)
+        sks.append(mk(i, "s", sh, base=b, wit=60, mode="PF")); i += 1
+        sks.append(mk(i, "s", sh, base=b, wit=60, mode="PF", year=2024)); i += 1
+    sks.append(mk(i, "s", [["B", "A", 0], ["B", "B", 0], ["S", "A", 1]], base=b, wit=3)); i += 1
+    # three securities, three tax years, several disposals per day: quantities symbolic, prices/fees constants
+    big = [
+        [["B", "A", 0], ["B", "B", 0], ["B", "C", 0], ["S", "A", 1], ["S", "B", 1], ["S", "C", 1]],
+        [["B", "C", 0], ["B", "A", 0], ["B", "B", 0], ["S", "C", 1], ["S", "A", 30], ["S", "B", 400]],
+        [["B", "A", 0], ["B", "B", 0], ["B", "C", 0], ["S", "A", 1], ["S", "B", 30], ["S", "C", 30], ["S", "A", 400], ["S", "B", 400]],
+    ]
+    for sh in big:
+        sks.append(mk(i, "q", sh, base=b, wit=5, mode="")); i += 1
+        if tier == "thorough":
+            sks.append(mk(i, "q", sh, base=b, wit=5, mode="Q")); i += 1
+    return sks
+
+
+SPECS["C16"] = dict(
+    id="C16", families=fam_c16, hook=True, chunk=1, env={"SYMX_MAX_LEAVES": "60000"},
+    entry_points=["cgt_core::calculator::calculate (pools.into_values, matches_by_year traversal, disposal_map.into_iter)", "cgt_core::matcher::Matcher::{process, compute_cost_offsets} (ledgers.values)", "cgt_core::ordering::sort_by_date_ticker", "cgt_core::verif_map (hook, cfg cgt_verif)", "cgt_formatter_plain::format"],
+    bounds=bounds_rel((
+        "5 ledgers of two securities over two tax years (all-years report and year filter 2024) with every numeric field symbolic, and 3 ledgers of three securities / three tax years / up to 3 disposals per year with concrete numbers; at every traversal of a core map ALL permutations of its entries are explored (maps of up to 4 entries), and the resulting report is proved identical, in order and in every figure, to the one computed with insertion order",
+        "as quick with symbolic quantities on the three-security ledgers")),
+    assumptions=["built with the cfg-guarded hook (--cfg cgt_verif): crates/cgt-core/src/verif_map.rs replaces std::collections::HashMap in calculator.rs, matcher/mod.rs, matcher/bed_and_breakfast.rs; hash iteration order is the only source of cross-process variation in the core"],
+    outside=["byte identity across processes and of PDF output (quantifies over OS-level executions)", "maps in cgt-money (FxCache: lookups only), cgt-converter (lookups/removals only), validation (lookups only)"])
